@@ -40,7 +40,9 @@ def check_cache(
 
     from hypergraph.cache import compute_cache_key
 
-    cache_key = compute_cache_key(_node_identity(node), inputs)
+    # Key on the function's own parameter names: renames must not make two
+    # different argument assignments of one function look alike.
+    cache_key = compute_cache_key(_node_identity(node), node.map_inputs_to_params(inputs))
     if not cache_key:
         return "", None
 
